@@ -17,11 +17,9 @@ NOT_DECIDED = [
 CONFIG_SENSITIVE = False
 
 
-def run(ctx):
+def classification_rules(ctx, sp, P=""):
     fx = ctx.fx
-    sp = spec("distinfo.json")
     preds = [tuple(p) for p in sp["classification_predicates"]]
-
     # ---- D1
     paths = ctx.paths(ET_FROM)
     body = ctx.body(ET_FROM)
@@ -48,11 +46,11 @@ def run(ctx):
                 nofile = out
             else:
                 rows.append((conds, out, p))
-        ctx.check(seen_preds == set(preds), "D1-PREDICATES", ET_FROM, "set", "the 8 predicates of the naming rule",
+        ctx.check(seen_preds == set(preds), P + "D1-PREDICATES", ET_FROM, "set", "the 8 predicates of the naming rule",
                   "classification tests %s; the naming rule uses %s" % (sorted(seen_preds - set(preds)) or "fewer predicates", sorted(set(preds) - seen_preds) or "the same"), fn_span(body))
-        ctx.check(not bad_scrut, "D1-SCRUTINEE", ET_FROM, "file-name", "predicates test the path's file name",
+        ctx.check(not bad_scrut, P + "D1-SCRUTINEE", ET_FROM, "file-name", "predicates test the path's file name",
                   "predicates %s are not applied to the file-name component" % bad_scrut, fn_span(body), nontrivial=False)
-        ctx.check(nofile == "Distfile", "D1-CLASSIFY", ET_FROM, "no-file-name", "no file name -> Distfile", "a path without a file name is classified %s" % nofile, fn_span(body))
+        ctx.check(nofile == "Distfile", P + "D1-CLASSIFY", ET_FROM, "no-file-name", "no file name -> Distfile", "a path without a file name is classified %s" % nofile, fn_span(body))
         n = 0
         bad = []
         for bits in itertools.product((False, True), repeat=len(preds)):
@@ -65,11 +63,20 @@ def run(ctx):
             want = "Patchfile" if is_patch_spec(asg) else "Distfile"
             if outs != {want}:
                 bad.append((tuple(k[1] for k, v in asg.items() if v), sorted(outs, key=str), want))
-        ctx.check(not bad, "D1-CLASSIFY", ET_FROM, "decision-table", "%d feasible assignments agree with the naming rule" % n,
+        ctx.check(not bad, P + "D1-CLASSIFY", ET_FROM, "decision-table", "%d feasible assignments agree with the naming rule" % n,
                   "classification differs from the naming rule for %d assignment(s), e.g. predicates true=%s -> %s, expected %s" % (len(bad), bad[0][0] if bad else "", bad[0][1] if bad else "", bad[0][2] if bad else ""),
                   fn_span(body))
-        ctx.floor("D1-CLASSIFY", ET_FROM, "feasible assignments evaluated", n, 60)
+        ctx.floor(P + "D1-CLASSIFY", ET_FROM, "feasible assignments evaluated", n, 60)
         ctx.note("classification assignments evaluated: %d" % n)
+
+
+
+def run(ctx):
+    fx = ctx.fx
+    sp = spec("distinfo.json")
+    preds = [tuple(p) for p in sp["classification_predicates"]]
+
+    classification_rules(ctx, sp)
 
     # ---- D2 map selection
     for fn in ("distinfo::Distinfo::insert", "distinfo::Distinfo::update_size", "distinfo::Distinfo::update_checksum", "distinfo::Distinfo::find_entry"):
